@@ -319,3 +319,9 @@ def check(model, rep):
     ck.r122()
     ck.r123()
     ck.r124()
+    from .c02 import closure_obligations
+    tmcls = model.cls('basic_robotics.general.faser_transform', 'tm')
+    helpers = [f for f in model.funcs_in('basic_robotics.general.basic_helpers') if f.name in ('globalToLocal', 'localToGlobal')]
+    n = closure_obligations(model, rep, 'R12.5', [tmcls.methods['adjoint'], tmcls.methods['TAAtoTM'], tmcls.methods['TMtoTAA']] + helpers,
+                            'frame changes of screws / wrenches (Adjoint of globalToLocal)')
+    rep.floor('R12.5', 'shared primitives under frame changes', len(n), 6)
